@@ -905,13 +905,19 @@ class Mgm2Computation(VariableComputation):
             self.logger.info(
                 f"Received gain from all neighbors {self._neighbors_gains}"
             )
+        # Gains are positive when minimizing and negative when maximizing:
+        # the best gain is the largest one when minimizing and the smallest
+        # one when maximizing.
+        best_of = max if self._mode == "min" else min
         if self._committed:
             neigh_gains = [
                 val
                 for n, val in self._neighbors_gains.items()
                 if n != self._partner.name
             ]
-            if neigh_gains == [] or self._potential_gain > max(neigh_gains):
+            if neigh_gains == [] or self._is_better_gain(
+                self._potential_gain, best_of(neigh_gains)
+            ):
                 if self.logger.isEnabledFor(logging.INFO):
                     self.logger.info(
                         f"Commited and best gain : GO for "
@@ -930,8 +936,8 @@ class Mgm2Computation(VariableComputation):
             self._enter_state("go?")
 
         else:
-            max_neighbors = max(list(self._neighbors_gains.values()))
-            if self._potential_gain > max_neighbors:
+            max_neighbors = best_of(list(self._neighbors_gains.values()))
+            if self._is_better_gain(self._potential_gain, max_neighbors):
                 if self.logger.isEnabledFor(logging.INFO):
                     self.logger.info(
                         f"Local gain is best, {self.name} unilaterally changes its "
@@ -970,6 +976,11 @@ class Mgm2Computation(VariableComputation):
             self._clear_agent()
             self._send_value()
             self._enter_state("value")
+
+    def _is_better_gain(self, gain, other_gain):
+        if self._mode == "min":
+            return gain > other_gain
+        return gain < other_gain
 
     def _handle_go_message(self, variable: str, msg: Mgm2GoMessage):
         if self.logger.isEnabledFor(logging.INFO):
